@@ -98,12 +98,14 @@ def Store.bindOld (s : Store) (p n : Str) : Store :=
 
 /-! ### characters, `is_ncname`, `split_uri` -/
 
-def natLookup : List (Nat × Nat) → Nat → Option Nat
-  | [], _ => none
-  | (k, v) :: r, x => if k = x then some v else natLookup r x
+/-- descent in the search tree `Tables.catTree` (the C table lookup of `unicodedata.category`) -/
+def Tables.CatTree.get : CatTree → Nat → Nat
+  | .leaf k, _ => k
+  | .node p l r, c => if c < p then l.get c else r.get c
 
-/-- `unicodedata.category(c)` as an index into `Tables.catNames` (tabulated code points only) -/
-def category (c : Nat) : Nat := (natLookup catTable c).getD catUnknown
+/-- `unicodedata.category(c)` as an index into `Tables.catNames`, for every code point of the running
+    Python's Unicode database (the table is regenerated from it on every run) -/
+def category (c : Nat) : Nat := if c < catLimit then catTree.get c else catUnknown
 def inCats (cats : List Nat) (c : Nat) : Bool := cats.contains (category c)
 /-- `category(c) in NAME_CATEGORIES or c in ALLOWED_NAME_CHARS` -/
 def isNameChar (c : Nat) : Bool := inCats nameCats c || allowedNameChars.contains c
